@@ -322,6 +322,7 @@ func isState(r *sdcpb.GetSchemaResponse) bool {
 
 func (d *Datastore) storeSyncMsg(ctx context.Context, syncup *target.SyncUpdate, sem *semaphore.Weighted) {
 	defer sem.Release(1)
+	defer d.verifSyncMsgDone()
 
 	converter := utils.NewConverter(d.schemaClient)
 
